@@ -128,6 +128,25 @@ class VDec(Val):
         return f'VDec({self.t})'
 
 
+class VFrac(VDec):
+    """A fractions.Fraction: an exact rational (no assumption needed)."""
+    import fractions as _fr
+    pycls = _fr.Fraction
+
+    def rep(self):
+        import fractions
+        return fractions.Fraction(1)
+
+    @property
+    def conc(self):
+        c = _num_conc(self.t)
+        if c is NOTCONC:
+            return c
+        import fractions
+        t = z3.simplify(self.t)
+        return fractions.Fraction(t.numerator_as_long(), t.denominator_as_long())
+
+
 class VFloat(Val):
     """A Python float: nan flag, inf in {-1,0,1}, finite value as exact rational,
     neg (sign bit; only observable for zero).  Results of float arithmetic on
